@@ -520,6 +520,7 @@ type c10ChildResp struct {
 	Marked  string   `json:"marked,omitempty"` // Coq term
 	NHits   int      `json:"nhits,omitempty"`
 	Afters  string   `json:"afters,omitempty"` // Coq term (list)
+	AfterY  []string `json:"aftery,omitempty"` // the same documents as YAML
 	Output  string   `json:"output,omitempty"` // build output yaml
 	Unrep   bool     `json:"unrep,omitempty"`  // result not representable as a Coq term
 	Timeout bool     `json:"timeout,omitempty"`
@@ -580,6 +581,7 @@ func c10Exec(req c10ChildReq) (resp c10ChildResp) {
 		if cls != ClsOk {
 			return resp
 		}
+		resp.AfterY, _ = c10TextsOfNodes(out)
 		t, ok := coqNodes(out)
 		if !ok {
 			resp.Unrep = true
@@ -858,7 +860,7 @@ var c10LabelVals = []string{"x", "x-1", "ax", "web"}
 var c10LabelSels = []string{"", "", "", "app=x", "app==x", "app!=x", "app", "!app", "app=x,tier=web", "tier=web", "x", "app=ax", "app = x", "app in (x)", "app=x,"}
 
 func c10PickN(r *Rng, l []string) string { return l[r.Intn(len(l))] }
-func pickInt(r *Rng, l []int) int      { return l[r.Intn(len(l))] }
+func c10PickInt(r *Rng, l []int) int      { return l[r.Intn(len(l))] }
 
 // ---------- resource generator (block YAML text) ----------
 
@@ -1180,6 +1182,9 @@ func c10RunImageVal(run *Run, c c10Case) {
 		return e
 	})
 	run.Count("imageval", cls)
+	if ay, err := doc.String(); err == nil {
+		c10Report(run, c10LawImageVal(c, cls, ay), c)
+	}
 	after, ok1 := coqNode(doc.YNode())
 	if !ok0 || !ok1 || tab.bad {
 		run.Meta.Skipped++
@@ -1204,15 +1209,15 @@ func c10RunImageVal(run *Run, c c10Case) {
 }
 
 // ---------- transformers over a ResMap ----------
-func c10Transform(name, config string, texts []string) (cls string, origT, afterT string, ok bool, changed bool) {
+func c10Transform(name, config string, texts []string) (cls string, origT, afterT string, ok bool, changed bool, afterY []string) {
 	m, err := c10ResMap(texts)
 	if err != nil {
-		return "load-error", "", "", false, false
+		return "load-error", "", "", false, false, nil
 	}
 	origT, ok0 := coqNodes(c10ResMapNodes(m))
 	for _, n := range c10ResMapNodes(m) {
 		if c10HasDupKeys(n.YNode()) {
-			return "dup-keys", "", "", false, false
+			return "dup-keys", "", "", false, false, nil
 		}
 	}
 	p := krusty.VerifC10Transformer(name)
@@ -1223,17 +1228,23 @@ func c10Transform(name, config string, texts []string) (cls string, origT, after
 		return p.Transform(m)
 	})
 	afterT, ok1 := coqNodes(c10ResMapNodes(m))
+	if cls == ClsOk {
+		afterY, _ = c10TextsOfNodes(c10ResMapNodes(m))
+	}
 	if cls != ClsOk {
 		afterT = origT
 	}
-	return cls, origT, afterT, ok0 && ok1, cls == ClsOk && afterT != origT
+	return cls, origT, afterT, ok0 && ok1, cls == ClsOk && afterT != origT, afterY
 }
 
 func c10RunImageTr(run *Run, c c10Case, imgFs types.FsSlice) {
 	cfg := "imageTag:\n  name: " + c10yq(c.Image.Name) + "\n  newName: " + c10yq(c.Image.NewName) + "\n  newTag: " + c10yq(c.Image.NewTag) +
 		"\n  digest: " + c10yq(c.Image.Digest) + "\n  tagSuffix: " + c10yq(c.Image.TagSuffix) + "\n" + c10FsYaml(imgFs)
-	cls, orig, after, ok, changed := c10Transform("ImageTagTransformer", cfg, c.Docs)
+	cls, orig, after, ok, changed, afterY := c10Transform("ImageTagTransformer", cfg, c.Docs)
 	run.Count("imagetr", cls)
+	if cls != "load-error" && cls != "dup-keys" {
+		c10Report(run, c10LawImageTr(c, cls, afterY), c)
+	}
 	tab := newPtab()
 	tab.add(c10ImgPattern(c.Image.Name))
 	if !ok || tab.bad {
@@ -1248,8 +1259,11 @@ func c10RunImageTr(run *Run, c c10Case, imgFs types.FsSlice) {
 
 func c10RunReplica(run *Run, c c10Case, repFs types.FsSlice) {
 	cfg := "replica:\n  name: " + c10yq(c.RName) + "\n  count: " + strconv.FormatInt(c.RCount, 10) + "\n" + c10FsYaml(repFs)
-	cls, orig, after, ok, changed := c10Transform("ReplicaCountTransformer", cfg, c.Docs)
+	cls, orig, after, ok, changed, afterY := c10Transform("ReplicaCountTransformer", cfg, c.Docs)
 	run.Count("replica", cls)
+	if cls != "load-error" && cls != "dup-keys" {
+		c10Report(run, c10LawReplica(c, cls, afterY), c)
+	}
 	if !ok {
 		run.Meta.Skipped++
 		return
@@ -1369,6 +1383,7 @@ func c10RunSelect(run *Run, c c10Case) {
 		return nil
 	})
 	run.Count("select", cls)
+	c10Report(run, c10LawSelect(c, cls, got), c)
 	tab := newPtab()
 	for _, p := range []string{c.Sel.Group, c.Sel.Version, c.Sel.Kind, c.Sel.Name, c.Sel.Namespace} {
 		tab.add(c10AnchorText(p))
@@ -1418,6 +1433,7 @@ func c10GenSplitPath(r *Rng) string {
 
 func c10RunSplit(run *Run, c c10Case) {
 	got := kutils.SmarterPathSplitter(c.PathS, ".")
+	c10Report(run, c10LawSplit(c, got), c)
 	run.Count("split", fmt.Sprintf("parts=%d", len(got)))
 	run.AddCase(fmt.Sprintf("(KSplit %s %s)", coqStr(c.PathS), coqStrList(got)), c, len(got) > 1)
 }
@@ -1609,6 +1625,31 @@ func c10GenRepl(r *Rng, l []c10Res) c10Repl {
 	if r.Chance(12) || len(l) == 0 {
 		return c10GenReplRandom(r, l)
 	}
+	if r.Chance(18) {
+		// a target with several ids selected through more than one of them, written non-idempotently
+		withPrev := []c10Res{}
+		for _, x := range l {
+			if len(x.Prev) > 0 {
+				withPrev = append(withPrev, x)
+			}
+		}
+		if len(withPrev) > 0 {
+			tg := withPrev[r.Intn(len(withPrev))]
+			src := l[r.Intn(len(l))]
+			rp := c10Repl{Source: &c10Source{c10Id: c10Id{Kind: src.Kind, Name: src.Name, Namespace: src.Namespace}, FieldPath: "metadata.name"}}
+			sel := c10Sel{}
+			switch r.Intn(4) {
+			case 0, 1:
+				sel.Kind = tg.Kind
+			case 2:
+				sel.Kind = tg.Prev[0][2]
+			}
+			t := c10Target{Select: &sel, FieldPaths: []string{c10PickN(r, []string{"metadata.annotations.copied", "metadata.labels.copied"})},
+				Options: &c10Opts{Delimiter: c10PickN(r, []string{"-", ":", "/", "::"}), Index: c10PickInt(r, []int{-1, -1, 4, 9, 1}), Create: true}}
+			rp.Targets = []c10Target{t}
+			return rp
+		}
+	}
 	rp := c10Repl{}
 	src := l[r.Intn(len(l))]
 	rp.Source = &c10Source{c10Id: c10Id{Kind: src.Kind, Name: src.Name}}
@@ -1622,7 +1663,7 @@ func c10GenRepl(r *Rng, l []c10Res) c10Repl {
 		rp.Source.FieldPath = c10PickN(r, c10PathsFor(r, src, false))
 	}
 	if r.Chance(22) {
-		rp.Source.Options = &c10Opts{Delimiter: c10PickN(r, []string{":", "/", ".", "-"}), Index: pickInt(r, []int{0, 0, 0, 0, 0, 0, 1, 1, 2, -1})}
+		rp.Source.Options = &c10Opts{Delimiter: c10PickN(r, []string{":", "/", ".", "-"}), Index: c10PickInt(r, []int{0, 0, 0, 0, 0, 0, 1, 1, 2, -1})}
 	}
 	nt := 1 + r.Intn(2)
 	for i := 0; i < nt; i++ {
@@ -1632,8 +1673,11 @@ func c10GenRepl(r *Rng, l []c10Res) c10Repl {
 		if r.Chance(70) {
 			s.Kind = tg.Kind
 		}
-		if r.Chance(85) {
+		if r.Chance(60) {
 			s.Name = tg.Name
+			if len(tg.Prev) > 0 && r.Chance(40) {
+				s.Name = tg.Prev[r.Intn(len(tg.Prev))][0]
+			}
 		}
 		if r.Chance(15) {
 			s.Namespace = tg.Namespace
@@ -1666,7 +1710,7 @@ func c10GenRepl(r *Rng, l []c10Res) c10Repl {
 			t.Options = &c10Opts{}
 			if r.Chance(55) {
 				t.Options.Delimiter = c10PickN(r, []string{":", "/", ".", "-", "::"})
-				t.Options.Index = r.Intn(5) - 1
+				t.Options.Index = c10PickInt(r, []int{-1, -1, -1, 0, 1, 2, 3, 6})
 			}
 			t.Options.Create = r.Chance(55)
 		}
@@ -1763,6 +1807,7 @@ func c10EmitRepl(run *Run, c c10Case, resp c10ChildResp) {
 	}
 	orig, ok := coqNodes(nodes)
 	run.Count("repl", resp.Cls)
+	c10Report(run, c10LawRepl(c, resp.Cls, resp.AfterY), c)
 	if resp.Cls == ClsErr {
 		m := resp.Msg
 		for _, k := range []string{"multiple matches", "nothing selected", "is missing for", "unable to find field", "unable to find or create", "delimiter option", "out of bounds", "must specify", "mutually exclusive", "error looking up", "wrong node kind", "selector", "previous"} {
@@ -2036,7 +2081,7 @@ func runC10(run *Run, rng *Rng, tier string) error {
 				case 2:
 					return ".*" + n
 				case 3:
-					return "(" + n + ")"
+					return n + "|" + l[g.Intn(len(l))].Name
 				case 4:
 					return n + "?"
 				default:
@@ -2071,6 +2116,16 @@ func runC10(run *Run, rng *Rng, tier string) error {
 			}
 			if s.Lab != "" && len(x.Labels) > 0 && g.Chance(70) {
 				s.Lab = x.Labels[0][0] + c10PickN(g, []string{"=", "==", "!="}) + x.Labels[0][1]
+			}
+		}
+		if g.Chance(14) {
+			// top-level alternations over near-miss names: x is a prefix of x-1, x.y, xzy, x1 and a suffix of ax
+			s = c10Sel{c10Id: c10Id{Name: c10PickN(g, []string{"x|app", "x|ax", "app|x", "ax|x", "x-1|x", "x|x-1", "app|ax|x", "x1|x"})}}
+			if g.Chance(30) && len(l) > 0 {
+				s.Kind = l[g.Intn(len(l))].Kind + "|Pod"
+			}
+			if g.Chance(20) {
+				s.Namespace = "ns|default"
 			}
 		}
 		cases = append(cases, c10Case{Kind: "select", Sel: &s, Docs: c10Texts(l)})
